@@ -288,3 +288,26 @@ Proof.
   - apply IH; [exact Htl | exact N2|]. intros x Hx Hy. apply (D x); [right; exact Hx | exact Hy].
 Qed.
 Arguments NoDup_app_intro {A}.
+
+Lemma apply_pm_ids_incl_on pm l :
+  (forall x x', In x l -> pm x = Some x' -> m_id x' = m_id x) -> incl (ids (apply_pm pm l)) (ids l).
+Proof.
+  intros P i Hi. unfold ids in *. apply in_map_iff in Hi. destruct Hi as [m' [E Hm']].
+  apply apply_pm_In in Hm'. destruct Hm' as [m [Hm Hp]]. apply in_map_iff. exists m. split; [|exact Hm].
+  rewrite <- E. symmetry. apply (P m m' Hm Hp).
+Qed.
+
+Lemma find_id_apply_pm_on pm l i :
+  (forall x x', In x l -> pm x = Some x' -> m_id x' = m_id x) -> NoDup (ids l) ->
+  find_id i (apply_pm pm l) = match find_id i l with Some m => pm m | None => None end.
+Proof.
+  induction l as [|x tl IH]; simpl; intros P ND; [reflexivity|].
+  inversion ND as [|? ? Hx Htl]; subst.
+  assert (Ptl : forall y y', In y tl -> pm y = Some y' -> m_id y' = m_id y) by (intros; apply P; [right|]; assumption).
+  destruct (N.eqb (m_id x) i) eqn:E.
+  - apply N.eqb_eq in E. destruct (pm x) as [x'|] eqn:Ep; simpl.
+    + rewrite (P x x' (or_introl eq_refl) Ep), E, N.eqb_refl. reflexivity.
+    + apply find_id_None. intros Hin. apply Hx. rewrite E. apply (apply_pm_ids_incl_on pm tl Ptl). exact Hin.
+  - destruct (pm x) as [x'|] eqn:Ep; simpl; [|apply IH; assumption].
+    rewrite (P x x' (or_introl eq_refl) Ep), E. apply IH; assumption.
+Qed.
